@@ -3,8 +3,8 @@ import Zc.Model.Link
 
 `c07 <endT> <n> <event>…` with events
 `up t h` · `close t h` · `reg|upd|unreg t o ty i` · `browse t h ty i` · `send t h d dst|- <items>` ·
-`dlv t d src h mc <items>` · `add|rem t bh bty bi so sty si`; `<items>` = `n` then `p o ty i ttl full` | `q ty k (o ty i)ᵏ qu`.
-Answer: `WF=b K1=b … K7=b K5a=b K6f=b conv=b lastChange=t state=<browser>.<svc>:<live><held><registered>,…`. -/
+`dlv t d src h mc <items>` · `add|rem t bh bty bi so sty si` · `obs t`; `<items>` = `n` then `p o ty i ttl full` | `q ty k (o ty i)ᵏ qu`.
+Answer: `WF=b K1=b … K7=b K5a=b K6f=b K3b=b KF=b conv=b lastChange=t state=<browser>.<svc>:<live><held><registered>,…`. -/
 namespace Zc.Driver.C07
 open Zc Zc.Link
 
@@ -38,6 +38,7 @@ def pEv : Tok TEv := do
     pure ⟨t, .dlv d src h mc items⟩
   | "add" => do let b ← pBr; let s ← pSvc; pure ⟨t, .added b s⟩
   | "rem" => do let b ← pBr; let s ← pSvc; pure ⟨t, .removed b s⟩
+  | "obs" => pure ⟨t, .obs⟩
   | _ => failure
 
 def parse : Tok (Int × Trace) := do
@@ -58,11 +59,15 @@ def run (endT : Int) (tr : Trace) : String :=
   let cfg := Cfg.gen
   let bs := activeBrowsers tr
   let ss := svcU tr
-  let conv := bs.all fun b => ss.all fun s => convergedFor cfg tr b s
+  -- the conclusion at every observation instant at least `settle` after the last change, and at the end
+  let obsT := (tr.filterMap fun e => match e.e with | .obs => some e.t | _ => none) ++ [endT]
+  let conv := obsT.all fun T => T < lastChange tr + 16000 ||
+    (let p := tr.filter fun e => e.t ≤ T
+     bs.all fun b => ss.all fun s => convergedFor cfg p b s)
   let st := bs.flatMap fun b => ss.map fun s =>
     s!"{b.idx}.{s.idx}:{b01 (live tr b s)}{b01 (held tr b.host s)}{b01 (registered cfg tr s)}"
   s!"WF={b01 (WF cfg tr endT)} K1={b01 (K1 cfg tr endT)} K2={b01 (K2 cfg tr endT)} K3={b01 (K3 cfg tr endT)} " ++
-  s!"K4={b01 (K4 cfg tr endT)} K5={b01 (K5 tr endT)} K6={b01 (K6 cfg tr)} K7={b01 (K7 cfg tr endT)} K5a={b01 (K5added tr)} K6f={b01 (K6full tr)} conv={b01 conv} " ++
+  s!"K4={b01 (K4 cfg tr endT)} K5={b01 (K5 cfg tr endT)} K6={b01 (K6 cfg tr)} K7={b01 (K7 cfg tr endT)} K5a={b01 (K5added tr)} K6f={b01 (K6full tr)} K3b={b01 (K3b cfg tr endT)} KF={b01 (KF cfg tr endT)} conv={b01 conv} " ++
   s!"lastChange={lastChange tr} state={if st.isEmpty then "-" else ",".intercalate st}"
 
 def dispatch (cmd : String) (rest : List String) : Option String :=
